@@ -114,7 +114,9 @@ pub fn run(ctx: &Ctx) -> Value {
         // (counts around 53 / 105 / 157 / 209 land 1..4 years later in the SAME month: they denote nothing)
         if ctx.quick() && (k > 6 || y % 4 != 0) && rng.chance(3, 4) { continue; }
         tw.emit(ev("nth", json!({"y": y, "m": m, "wd": w, "k": k}), || json!(odn(NaiveDate::from_weekday_of_month_opt(y, m, wd_of(w), k)))));
-        counts[5] += 1;
+        #[allow(deprecated)]   // the deprecated panicking route: its documented panic is the same outcome as None
+        tw.emit(ev("nth", json!({"y": y, "m": m, "wd": w, "k": k, "route": "panicking"}), || json!(odn(crate::guard(|| NaiveDate::from_weekday_of_month(y, m, wd_of(w), k)).ok()))));
+        counts[5] += 2;
     }}}}
     for y in [i32::MIN, -262_144, -262_143, -1, 0, 1900, 2023, 2024, 262_142, 262_143, i32::MAX] { for m in 1..=12u32 {
         tw.emit(ev("month_days", json!({"y": y, "m": m}), || json!(Month::from_u32(m).unwrap().num_days(y).map(|x| x as i64).unwrap_or(-1))));
